@@ -20,12 +20,13 @@ import (
 	"time"
 
 	mcp "trpc.group/trpc-go/trpc-mcp-go"
+	"verifharness/internal/gate"
 )
 
 type c08SrvScenario struct {
 	ID     string `json:"id"`
 	Server string `json:"server"` // streamable streamable-sse legacy
-	State  string `json:"state"`  // idle-stream in-handler in-listroots
+	State  string `json:"state"`  // idle-stream in-handler in-listroots in-listroots-late (request registered, not yet written)
 	How    string `json:"how"`    // close reset
 	NPeers int    `json:"npeers"`
 }
@@ -239,7 +240,20 @@ func c08SrvRun(sc c08SrvScenario) (res c08SrvResult) {
 		}
 	}
 	// bring every peer into the state
-	tool := map[string]string{"in-handler": "block", "in-listroots": "askroots"}[sc.State]
+	var ctl *gate.Controller
+	if sc.State == "in-listroots-late" {
+		// the server-to-client request is parked between its registration and its write to the stream
+		ctl = gate.New(func(point string, kv []interface{}) (string, string) {
+			if point == "sreq.registered" {
+				return "srv-" + fmt.Sprint(kv[0]), fmt.Sprint(kv...) // one actor per session
+			}
+			return "", ""
+		})
+		ctl.Gate("sreq.registered", true)
+		mcp.VerifSetHook(ctl.Hook)
+		defer func() { ctl.ReleaseAll(); mcp.VerifSetHook(nil) }()
+	}
+	tool := map[string]string{"in-handler": "block", "in-listroots": "askroots", "in-listroots-late": "askroots"}[sc.State]
 	if tool != "" {
 		for _, p := range peers {
 			c, err := dialRaw(addr)
@@ -257,7 +271,7 @@ func c08SrvRun(sc c08SrvScenario) (res c08SrvResult) {
 		want := int32(sc.NPeers)
 		dl := time.Now().Add(2 * time.Second)
 		for time.Now().Before(dl) {
-			if atomic.LoadInt32(&started) >= want && (sc.State != "in-listroots" || pending() >= sc.NPeers) {
+			if atomic.LoadInt32(&started) >= want && (!strings.HasPrefix(sc.State, "in-listroots") || pending() >= sc.NPeers) {
 				res.Reached = true
 				break
 			}
@@ -273,6 +287,10 @@ func c08SrvRun(sc c08SrvScenario) (res c08SrvResult) {
 		for _, c := range p.conns {
 			c.vanish(sc.How)
 		}
+	}
+	if ctl != nil {
+		time.Sleep(100 * time.Millisecond) // the stream's handler has noticed that its peer is gone
+		ctl.ReleaseAll()
 	}
 	dl := t0.Add(3 * time.Second)
 	for {
